@@ -110,7 +110,7 @@ pub fn rclaims(r: &mut StdRng, o: &TreeOpts, now: u64) -> Value {
     if r.gen_bool(0.5) {
         m.insert("sub".into(), json!(rstr(r, o)));
     }
-    m.insert("iss".into(), json!(["https://issuer.example", "i1", "\u{e9}metteur"][r.gen_range(0..3)]));
+    m.insert("iss".into(), json!(["https://issuer.example", "https://issuer.example/", "i1", "\u{e9}metteur", "i1//"][r.gen_range(0..5)]));
     if r.gen_bool(0.5) {
         m.insert("iat".into(), json!(now - r.gen_range(0..100000)));
     }
